@@ -211,7 +211,7 @@ def run(ctx) -> None:
     # asyncio.run() in the same process): six hosts whose connects overlap
     for rep in range(2):
         hs = [{"ip": f"10.7.{rep}.{i + 1}", "id": 0x0F1011000000 + 16 * rep + i, "port": 6444, "sn": f"{rep:030d}{i:02d}", "tt": 0xAC if i != 4 else 0xA1, "suffix": "F7B4", "upper": False,
-               "version": 2, "listen_port": 6445, "src_port": 6445, "delay": 0.01 + 0.001 * i, "extra": "", "tcp": "ok" if i % 3 else "hang"} for i in range(7)]
+               "version": 2, "listen_port": 6445, "src_port": 6445, "delay": 0.01 + 0.001 * i, "extra": "", "tcp": ["hang", "hang", "ok", "hang", "hang", "hang", "ok"][i] if rep == 0 else ("ok" if i % 3 else "hang")} for i in range(7)]
         ctx.check({"hosts": hs, "auto_connect": True, "rep": rep + 10 * ctx.shard}, lambda c: _run_one(ctx, c))
     ctx.sweep("seven hosts auto-connected at once, twice per process", 2, True)
 
